@@ -293,6 +293,13 @@ def oriented_bounds(obj, angle_digits=1, ordered=True, normal=None, coplanar_tol
 
     # we know the minimum volume transform which should be the expensive
     # part so now we need to do the bookkeeping to find the box
+    # use every input point rather than the hull vertices: for nearly
+    # flat input qhull keeps only some of the extreme points and
+    # the box has to cover the input whatever direction was picked
+    if hasattr(obj, "vertices"):
+        vertices = obj.vertices.view(np.ndarray)
+    elif not hasattr(obj, "convex_hull"):
+        vertices = points
     vert_ones = np.column_stack((vertices, np.ones(len(vertices)))).T
     projected = np.dot(min_2D, vert_ones).T[:, :3]
     height = np.ptp(projected[:, 2])
